@@ -13,7 +13,7 @@ CHECKS = {
  "C06": ("exploration", "4 (C06)", "2-8 client tasks put (unique values), get and delete on 1-4 keys while flush, log rotation and compaction run under the seeded scheduler with injected stalls; invoke/return stamped with a global event counter; final reads, also after a restart, appended; porcupine checks one register per key; a failed write has no effect in the model",
          "at most ~55 operations per key; porcupine time-outs are counted inconclusive, never reported"),
  "C13": ("exploration", "4 (C13)", "primary and 1-2 replica engines with the real replication Primary/Replica/EngineApplier over a simulated, adversarial gRPC transport (whole stream messages dropped, duplicated, swapped; unary calls failing before/after the handler; resets, partitions, stalled readers); a recorder around the replica's applier checks after EVERY applied entry that the entry is a write of the primary step with its sequence number, that the replay of all applied entries is an entry-level prefix state of the primary's history, and that GetLastAppliedSequence() never decreased nor exceeded what was applied in full (also sampled every 37 ms); final engine scan equals the recorder's replay",
-         "stubs: gRPC/HTTP2/TCP (simnet) and replication.Manager (its start-up is mirrored); single writer on a fresh primary so that step i carries sequence i; replicas are not restarted here (a restart replays from sequence 1 by design); where several prefixes fit a state the oracle credits the longest"),
+         "stubs: gRPC/HTTP2/TCP (simnet); replication.Manager runs for real through three seams substituted in the scratch copy (default connector, net.Listen, applier wrapper) and is mirrored only if an anchor is gone; single writer on a fresh primary so that step i carries sequence i; replicas are not restarted here (a restart replays from sequence 1 by design); where several prefixes fit a state the oracle credits the longest"),
  "C14": ("exploration", "4 (C14)", "the same cluster with 1-3 replicas: scripts interleave the primary's workload (puts, deletes, batches, multi-key transactions, flushes = log rotations, pauses) with replica joins before/during/after the writes, orderly restarts, process kills, connection resets, partitions and stalled readers; then all faults stop and every replica must scan equal to the reference model's final state within 120 unstalled virtual seconds, and still 5 s later",
          "bounded liveness on the simulator's clock (scheduler-injected stalls excluded); a restarted replica counts as arrived only once its new incarnation has applied the log to the primary's end (it replays from sequence 1); a primary write that gives up on a log rotation (stall-induced, unrelated to replication) abandons the run as inconclusive"),
  "C15": ("exploration", "4 (C15)", "primary with 0-2 healthy replicas and 1-3 scripted misbehaving peers of the replication service (never reads, reads slowly, never acknowledges, nonsense Ack/Nack, Ack/Nack while not reading, vanishes, opens streams in a row) with flow-control windows of 64-256 KB, while 1-3 clients write up to 16 KB values: every primary operation must succeed within 5 virtual seconds, vanished and window-blocked peers must leave Primary.GetReplicaInfo within heartbeat timeout + 2 intervals + 5 s, healthy replicas must still converge",
